@@ -171,6 +171,15 @@ func VerifHSRun(nEnq, capacity int, sched []string) string {
 	db.commitQueue.init(capacity)
 	cq := &db.commitQueue
 	hsCtl.by = map[int64]*hsThread{}
+	// a step that does not reach its next yield point in time is reported as "timeout", never
+	// as "bad-schedule" (which is reserved for steps the schedule itself makes impossible)
+	timedOut := false
+	bad := func() string {
+		if timedOut {
+			return "timeout"
+		}
+		return "bad-schedule"
+	}
 	spawn := func(body func()) (*hsThread, bool) {
 		t := &hsThread{resume: make(chan struct{}), parked: make(chan string), done: make(chan struct{}), live: true}
 		go func() {
@@ -186,7 +195,8 @@ func VerifHSRun(nEnq, capacity int, sched []string) string {
 		case <-t.done:
 			t.live = false
 			return t, true
-		case <-time.After(2 * time.Second):
+		case <-time.After(20 * time.Second):
+			timedOut = true
 			return t, false
 		}
 	}
@@ -201,7 +211,8 @@ func VerifHSRun(nEnq, capacity int, sched []string) string {
 		case <-t.done:
 			t.live = false
 			return true
-		case <-time.After(2 * time.Second):
+		case <-time.After(20 * time.Second):
+			timedOut = true
 			return false
 		}
 	}
@@ -217,22 +228,22 @@ func VerifHSRun(nEnq, capacity int, sched []string) string {
 		}
 	})
 	if !ok {
-		return "bad-schedule"
+		return bad()
 	}
 	closer, ok := spawn(func() { cq.close() })
 	if !ok {
-		return "bad-schedule"
+		return bad()
 	}
 	enq := make([]*hsThread, nEnq)
 	for _, a := range sched {
 		switch {
 		case a == "w":
 			if !step(worker) {
-				return "bad-schedule"
+				return bad()
 			}
 		case a == "c":
 			if !step(closer) {
-				return "bad-schedule"
+				return bad()
 			}
 		case len(a) >= 2 && (a[0] == 's' || a[0] == 'e'):
 			i, err := strconv.Atoi(a[1:])
@@ -247,11 +258,11 @@ func VerifHSRun(nEnq, capacity int, sched []string) string {
 					_ = db.enqueueCommitRequest(&commitRequest{req: &request{}, entryCount: 1, size: 1})
 				})
 				if !ok {
-					return "bad-schedule"
+					return bad()
 				}
 				enq[i] = t
 			} else if !step(enq[i]) {
-				return "bad-schedule"
+				return bad()
 			}
 		default:
 			return "bad-schedule"
@@ -349,6 +360,22 @@ func runHandshake(sched []string) string {
 	if hsBuild.err != "" {
 		return hsBuild.err
 	}
+	// a timeout (child did not finish / a step did not reach its next yield in 20 s) says
+	// nothing about the schedule: retry, and only a timeout that reproduces is reported
+	res := ""
+	for attempt := 0; attempt < 3; attempt++ {
+		res = runHandshakeOnce(sched)
+		if res != "timeout" {
+			return res
+		}
+		hsTimeoutRetries++
+	}
+	return res
+}
+
+var hsTimeoutRetries int64
+
+func runHandshakeOnce(sched []string) string {
 	cmd := exec.Command(hsBuild.bin, append([]string{"hs-child"}, sched...)...)
 	done := make(chan struct{})
 	var outp []byte
@@ -356,9 +383,9 @@ func runHandshake(sched []string) string {
 	go func() { outp, err = cmd.Output(); close(done) }()
 	select {
 	case <-done:
-	case <-time.After(60 * time.Second):
+	case <-time.After(180 * time.Second):
 		cmd.Process.Kill()
-		return "stuck"
+		return "timeout"
 	}
 	hsRuns++
 	res := strings.TrimSpace(string(outp))
@@ -385,6 +412,9 @@ func (m *hsModel) enabled(a string) bool {
 	case a == "w":
 		switch m.wpc {
 		case 2:
+			if m.items > 0 && m.closCh {
+				return false // both arms of the worker's select ready: Go picks at random
+			}
 			return m.items > 0 || m.closCh
 		case 5:
 			return m.ring > 0 || (m.closed && m.qlen == 0)
@@ -401,7 +431,10 @@ func (m *hsModel) enabled(a string) bool {
 		if pc == 0 {
 			return false
 		}
-		if pc == 3 { // e2
+		if pc == 3 { // e2: acquireSpace's select
+			if m.sp > 0 && m.closCh {
+				return false // both arms ready: Go picks at random (model: actions enq / enqc)
+			}
 			return m.sp > 0 || m.closCh
 		}
 		return true
